@@ -263,3 +263,14 @@ def test_fixed_C12_edit_terminals_not_served_from_cache(tmp_path):    # 0896624
     assert p.parse('aca') == Lark(g, parser='lalr', edit_terminals=edit).parse('aca')
     q = Lark(g, parser='lalr', cache=path)
     assert q.parse('ac') == Lark(g, parser='lalr').parse('ac')
+
+
+def test_fixed_C08_keyword_terminals_in_continuation_sets():          # 48b07b4
+    from lark.exceptions import UnexpectedCharacters
+    g = 'start: "if" NAME | NAME "=" NAME\nNAME: /[a-z]+/\n%ignore " "\n'
+    with pytest.raises(UnexpectedToken) as e:
+        Lark(g, parser='lalr', lexer='contextual').parse('= a')
+    assert set(e.value.accepts) <= set(e.value.expected)
+    with pytest.raises(UnexpectedCharacters) as e:
+        Lark(g, parser='earley', lexer='basic').parse('9')
+    assert {'IF', 'NAME'} <= set(e.value.allowed)
